@@ -14,6 +14,9 @@ mod props_static;
 mod props_dynamic;
 mod props_more;
 mod props_c06;
+mod props_map;
+mod props_c14;
+mod props_c11;
 mod smap;
 mod checks;
 
